@@ -3,6 +3,7 @@ real engine (sharded over fresh engines), cached per (repo, verif, seed, tier)."
 import json
 import os
 import re
+import resource
 import shutil
 import subprocess
 import time
@@ -28,6 +29,16 @@ def split_cases(path):
     return out
 
 
+def _more_files():
+    # a restart variant opens a new SQLite pool per engine; the engine does not release the old one on close
+    soft, hard = resource.getrlimit(resource.RLIMIT_NOFILE)
+    want = 262144 if hard == resource.RLIM_INFINITY else hard
+    try:
+        resource.setrlimit(resource.RLIMIT_NOFILE, (want, hard))
+    except (ValueError, OSError):
+        pass
+
+
 def run_harness(cases_path, out_path, workdir, args=(), shards=SHARDS, mode='engine'):
     """shard the case file over fresh engines; concatenates the outputs in case order"""
     lines = [l for l in open(cases_path) if l.strip()]
@@ -40,7 +51,7 @@ def run_harness(cases_path, out_path, workdir, args=(), shards=SHARDS, mode='eng
         cp = os.path.join(sd, 'cases.jsonl')
         open(cp, 'w').writelines(part)
         op = os.path.join(sd, 'out.txt')
-        p = subprocess.Popen([HARNESS_BIN, mode, cp, op, sd] + list(args), cwd=sd, env=ENV, stdout=subprocess.DEVNULL, stderr=subprocess.PIPE)
+        p = subprocess.Popen([HARNESS_BIN, mode, cp, op, sd] + list(args), cwd=sd, env=ENV, stdout=subprocess.DEVNULL, stderr=subprocess.PIPE, preexec_fn=_more_files)
         procs.append((p, op, sd))
     errs = []
     with open(out_path, 'w') as out:
